@@ -232,7 +232,7 @@ theorem forbidden_attempt_raises_TypeError_and_keeps_value (s : St) (hwf : WF s)
     (n : Name) (v : Obj) (p : PId) (o : CId) (gp : PId) (q : Param)
     (hx : s.insts[i]? = some x) (hd : descriptor s x.cls n = some (p, o))
     (hg : governing s i n = some gp) (hq : s.heap[gp]? = some q) (hval : rejects s q v = false)
-    (hforbidden : q.readonly = true ∨ (q.constant = true ∧ v ≠ guardOld x n q)) :
+    (hforbidden : q.readonly = true ∨ (q.constant = true ∧ v ≠ guardOld s x n q)) :
     (step s (.instSet i n v)).2 = .typeError ∧
     (∀ j m, stored (step s (.instSet i n v)).1 j m = stored s j m) ∧
     (step s (.instSet i n v)).1.classes = s.classes ∧
@@ -254,7 +254,15 @@ theorem forbidden_attempt_raises_TypeError_and_keeps_value (s : St) (hwf : WF s)
     have hq1 : (setInst { s with heap := s.heap ++ [q] } i
         { x with iparams := aset x.iparams n s.heap.length }).heap[s.heap.length]? = some q :=
       List.getElem?_concat_length
-    have hold : guardOld { x with iparams := aset x.iparams n s.heap.length } n q = guardOld x n q := rfl
+    have hold : guardOld (setInst { s with heap := s.heap ++ [q] } i { x with iparams := aset x.iparams n s.heap.length })
+        { x with iparams := aset x.iparams n s.heap.length } n q = guardOld s x n q := by
+      unfold guardOld
+      simp only [descriptor_of_classes (s := s)
+        (s' := setInst { s with heap := s.heap ++ [q] } i { x with iparams := aset x.iparams n s.heap.length }) rfl, hd]
+      have : (setInst { s with heap := s.heap ++ [q] } i
+          { x with iparams := aset x.iparams n s.heap.length }).heap[p]? = s.heap[p]? :=
+        List.getElem?_append_left (hwf.desc hd)
+      rw [this]
     rw [guardedStore_forbidden hq1 (by exact hval) (by rw [hold]; exact hforbidden)]
     have hin : instantiated s i x n p = .ok (setInst { s with heap := s.heap ++ [q] } i
         { x with iparams := aset x.iparams n s.heap.length },
@@ -265,8 +273,8 @@ theorem forbidden_attempt_raises_TypeError_and_keeps_value (s : St) (hwf : WF s)
 /-- re-assigning the identical object to a constant parameter is accepted and changes nothing -/
 theorem identical_object_is_accepted (s : St) (i : IId) (x : Inst) (n : Name) (ip : PId) (q : Param)
     (hq : s.heap[ip]? = some q) (hc : q.constant = true) (hr : q.readonly = false)
-    (hval : rejects s q (guardOld x n q) = false) :
-    guardedStore s i x n ip (guardOld x n q) = (s, .ok) := by
+    (hval : rejects s q (guardOld s x n q) = false) :
+    guardedStore s i x n ip (guardOld s x n q) = (s, .ok) := by
   unfold guardedStore
   simp [hq, hc, hr, hval]
 
@@ -281,6 +289,16 @@ theorem invalid_rename_changes_nothing (s : St) (i : IId) (x : Inst) (gp : PId) 
     (hx : s.insts[i]? = some x) (hg : pobjOf s x "name" = some gp) (hq : s.heap[gp]? = some q)
     (hval : rejects s q v = true) : step s (.setName i v) = (s, .valueError) := by
   simp only [step, renameCore, hx, hg, hq, hval, if_true]
+
+/-- what the guard compares with is what the attribute reads (`Parameter._held_value`, e80cc81): after the
+class default was re-assigned under an existing per-instance copy, `a.c = a.c` is the accepted
+re-assignment and the copy's stale default is refused like any other object -/
+theorem guard_compares_with_what_the_attribute_reads (s : St) (i : IId) (x : Inst) (n : Name) (q qc : Param)
+    (p : PId) (o : CId) (hx : s.insts[i]? = some x) (hd : descriptor s x.cls n = some (p, o))
+    (hq : s.heap[p]? = some qc) : held s i n = some (guardOld s x n q) := by
+  unfold held guardOld
+  simp only [hx, hd, hq]
+  cases aget x.values n <;> rfl
 
 /-! ## Read-only -/
 
@@ -360,7 +378,7 @@ theorem name_is_constant (s : St) (c : CId) (kw : List (Name × Obj)) (ro : Bool
 theorem name_cannot_be_rebound (s : St) (hwf : WF s) (i : IId) (x : Inst) (v : Obj) (p : PId) (o : CId)
     (gp : PId) (q : Param) (hx : s.insts[i]? = some x) (hd : descriptor s x.cls "name" = some (p, o))
     (hg : governing s i "name" = some gp) (hq : s.heap[gp]? = some q) (hc : q.constant = true)
-    (hval : rejects s q v = false) (hv : v ≠ guardOld x "name" q) :
+    (hval : rejects s q v = false) (hv : v ≠ guardOld s x "name" q) :
     (step s (.instSet i "name" v)).2 = .typeError :=
   (forbidden_attempt_raises_TypeError_and_keeps_value s hwf i x "name" v p o gp q hx hd hg hq hval
     (Or.inr ⟨hc, hv⟩)).1
